@@ -112,4 +112,11 @@ def suite_mem_frames(ctx):
     return s
 
 
-SUITES = [suite_enc, suite_iso, suite_mem_frames]
+def suite_two_clients(ctx):
+    """a second client object in the same process (inside a suppress block, a payload override, with adopted timing, reconfigured, after a failed call) never shows
+    in this client's frames or outcome: the C15 two_clients suite, run here as well (state kept on the class instead of the instance breaks this property too)"""
+    from . import c15
+    return c15.suite_two_clients(ctx)
+
+
+SUITES = [suite_enc, suite_iso, suite_mem_frames, suite_two_clients]
